@@ -134,6 +134,13 @@ func (w *World) execCommit(st *Step) *Violation {
 				return v
 			}
 		}
+		if st.GiveUp {
+			// the caller does not retry now: whatever was not written stays pending, the history goes on, and a
+			// later commit has to bring the ledger to the state a fault-free history would have reached
+			w.Stats.Inc("commit.given-up")
+			w.result("commit given up")
+			return nil
+		}
 		if attempts > st.Retries+8 {
 			return w.viol("harness", "commit still failing after %d attempts", attempts)
 		}
